@@ -7,9 +7,14 @@ package reservation
 // reservation state is built through the real constructors (NewReservationInfo + AddAssignedPod); the oracle
 // recomputes, from the pod objects the harness assigned, the sum the statement speaks of and asserts only
 //
-//	accepted  =>  for every reserved dimension the pod requests:  sum(non-victim assigned pods) + request <= reserved
+//	accepted  =>  for every reserved dimension the pod requests:  max(0, sum(assigned pods) - preemptible) + request <= reserved
 //
-// (the converse is counted as converse_misses_fit_rejected).
+// (the converse is counted as converse_misses_fit_rejected). In 75% of the triples the victims are a subset of the
+// assigned pods (then the first term is exactly the sum of the pods that stay). In 25% the preemptible amount
+// additionally contains a victim that is only NOMINATED to the reservation (a preemption dry run finds it through
+// GetNominatedReservation; it is not part of Allocated), so that for one or more reserved resources the
+// preemptible amount exceeds the allocated amount by one unit or by a lot, also with nothing allocated at all:
+// what stays can never be negative, so in particular accepted => request <= reserved.
 
 import (
 	"fmt"
@@ -50,7 +55,7 @@ func c05Unit(n corev1.ResourceName) resource.Quantity {
 func TestVerifC05Fit(t *testing.T) {
 	node := c05BigNode()
 	kit.Run(t, kit.Config{Property: "C05", Unit: "fit", Quick: 60000, Thorough: 1500000,
-		Rule: "restricted reservation (random reserved resources, optional pods capacity, restricted options, inner reserved amount) with 0-4 assigned pods added through AddAssignedPod, victims = random subset of the assigned pods (preemptible = their summed requests + pod count), pod request biased to remaining-1 / remaining / remaining+1 unit in one reserved dimension; 40% of the calls go through fitsNodeAndReservation on a node that always fits; distinct = (#dims, pods capacity, inner reserved, #assigned, #victims, entry point, boundary class, accepted, fits); non-trivial = at least one assigned pod and a request within one unit of the remaining amount"},
+		Rule: "restricted reservation (random reserved resources, optional pods capacity, restricted options, inner reserved amount) with 0-4 assigned pods added through AddAssignedPod; 75%: victims = random subset of the assigned pods (preemptible = their summed requests + pod count); 25%: victims = subset of the assigned pods plus a pod that is only nominated to the reservation, sized so that in 1..all reserved resources preemptible = allocated + 1 unit or + a lot (a third of these with no assigned pod at all); pod request biased to remaining-1 / remaining / remaining+1 unit / far above in one reserved dimension (remaining = reserved - held back - max(0, allocated - preemptible)); 40% of the calls go through fitsNodeAndReservation on a node that always fits; distinct = (#dims, pods capacity, inner reserved, #assigned, #victims, victim mode, excess class, entry point, boundary class, accepted, fits); non-trivial = a request within one unit of the remaining amount with at least one assigned pod or with a preemptible amount above the allocated amount"},
 		func(c *kit.Case) {
 			r := c.R
 			alloc := c05GenRequests(r, []int{90, 75, 35, 15})
@@ -89,6 +94,15 @@ func TestVerifC05Fit(t *testing.T) {
 				c.Harness("dimensions undetermined for a generated reservation")
 			}
 			k := r.Weighted(25, 30, 25, 15, 5)
+			// victim mode: "subset" = victims are assigned pods; "above" = a nominated-only victim makes the
+			// preemptible amount exceed the allocated amount
+			mode := "subset"
+			if r.Pct(25) {
+				mode = "above"
+				if r.Pct(33) {
+					k = 0 // nothing allocated at all
+				}
+			}
 			type apod struct {
 				uid    types.UID
 				req    corev1.ResourceList
@@ -102,13 +116,50 @@ func TestVerifC05Fit(t *testing.T) {
 				ri.AddAssignedPod(p)
 				assigned = append(assigned, &apod{uid: p.UID, req: c05PodRequests(p)})
 			}
-			// victims: pods of this reservation that a preemption would remove
+			var dimList []corev1.ResourceName
+			for _, n := range c05ResNames {
+				if dims[n] {
+					dimList = append(dimList, n)
+				}
+			}
+			// what all assigned pods request, per reserved dimension (recomputed from the pod objects)
+			allocatedSum := corev1.ResourceList{}
+			for _, a := range assigned {
+				for n, q := range a.req {
+					if dims[n] {
+						allocatedSum[n] = c05Add(allocatedSum[n], q)
+					}
+				}
+			}
+			// victims: pods a preemption dry run would remove
 			var preemptible corev1.ResourceList
-			victims := 0
-			if k > 0 && r.Pct(40) {
+			victims := 0 // assigned pods among the victims
+			victimPods := int64(0)
+			excess := "none"
+			aboveDims := map[corev1.ResourceName]bool{}
+			if mode == "subset" {
+				if k > 0 && r.Pct(40) {
+					preemptible = corev1.ResourceList{}
+					for _, a := range assigned {
+						if r.Pct(50) {
+							a.victim = true
+							victims++
+							for n, q := range a.req {
+								preemptible[n] = c05Add(preemptible[n], q)
+							}
+						}
+					}
+					victimPods = int64(victims)
+					preemptible[corev1.ResourcePods] = *resource.NewQuantity(victimPods, resource.DecimalSI)
+					if victims == 0 && r.Bool() {
+						preemptible = nil
+					}
+				}
+			} else {
 				preemptible = corev1.ResourceList{}
+				all := r.Pct(30)
 				for _, a := range assigned {
-					if r.Pct(50) {
+					if all || r.Pct(50) {
 						a.victim = true
 						victims++
 						for n, q := range a.req {
@@ -116,44 +167,98 @@ func TestVerifC05Fit(t *testing.T) {
 						}
 					}
 				}
-				preemptible[corev1.ResourcePods] = *resource.NewQuantity(int64(victims), resource.DecimalSI)
-				if victims == 0 && r.Bool() {
-					preemptible = nil
+				// the nominated-only victim: in the chosen reserved dimensions it requests what is still missing
+				// to reach the allocated amount plus one unit / plus a lot
+				excess = kit.Pick(r, []string{"unit", "lot"})
+				first := kit.Pick(r, dimList)
+				nominatedReq := c05GenRequests(r, []int{30, 30, 15, 10})
+				for _, n := range dimList {
+					if n != first && !r.Pct(35) {
+						continue
+					}
+					aboveDims[n] = true
+					gap := c05Sub(allocatedSum[n], preemptible[n])
+					if gap.Sign() < 0 {
+						gap = resource.Quantity{}
+					}
+					if excess == "unit" {
+						gap.Add(c05Unit(n))
+					} else {
+						gap.Add(c05Lot(n))
+						gap.Add(alloc[n])
+					}
+					nominatedReq[n] = gap
+				}
+				for n, q := range nominatedReq {
+					preemptible[n] = c05Add(preemptible[n], q)
+				}
+				victimPods = int64(victims) + 1
+				preemptible[corev1.ResourcePods] = *resource.NewQuantity(victimPods, resource.DecimalSI)
+			}
+			// the sum the statement speaks of, with the victims gone: never negative
+			used := corev1.ResourceList{}
+			above := false
+			for _, n := range dimList {
+				u := c05Sub(allocatedSum[n], preemptible[n])
+				if u.Sign() < 0 {
+					u = resource.Quantity{}
+				}
+				used[n] = u
+				if pq := preemptible[n]; pq.Cmp(allocatedSum[n]) > 0 {
+					above = true
 				}
 			}
-			// the sum the statement speaks of: requests of the pods that stay assigned, per reserved dimension
-			used := corev1.ResourceList{}
+			// pod-level reading: requests of the assigned pods that are not victims (equal to `used` when the
+			// victims are a subset of the assigned pods; only reported as a note otherwise)
+			staying := corev1.ResourceList{}
 			for _, a := range assigned {
 				if a.victim {
 					continue
 				}
 				for n, q := range a.req {
 					if dims[n] {
-						used[n] = c05Add(used[n], q)
+						staying[n] = c05Add(staying[n], q)
+					}
+				}
+			}
+			if mode == "subset" {
+				for _, n := range dimList {
+					if sq := staying[n]; sq.Cmp(used[n]) != 0 {
+						c.Harness("subset victims: staying sum %s != allocated - preemptible %s for %s", c05QS(staying[n]), c05QS(used[n]), n)
 					}
 				}
 			}
 			// request: random, then one reserved dimension is moved to the boundary
 			req := c05GenRequests(r, []int{75, 60, 30, 15})
 			boundary := "far"
-			var dimList []corev1.ResourceName
-			for _, n := range c05ResNames {
-				if dims[n] {
-					dimList = append(dimList, n)
-				}
-			}
-			if len(dimList) > 0 && r.Pct(60) {
+			if len(dimList) > 0 && (mode == "above" && r.Pct(85) || mode == "subset" && r.Pct(60)) {
 				n := kit.Pick(r, dimList)
+				if mode == "above" && r.Pct(80) {
+					for _, d := range dimList { // prefer a dimension in which preemptible exceeds allocated
+						if aboveDims[d] {
+							n = d
+							break
+						}
+					}
+				}
 				remaining := c05Sub(c05Sub(alloc[n], inner[n]), used[n])
-				switch r.Intn(3) {
+				classes := 3
+				if mode == "above" {
+					classes = 4
+				}
+				switch r.Intn(classes) {
 				case 0:
 					remaining.Sub(c05Unit(n))
 					boundary = "below"
 				case 1:
 					boundary = "at"
-				default:
+				case 2:
 					remaining.Add(c05Unit(n))
 					boundary = "above"
+				default: // larger than the whole reservation
+					remaining.Add(alloc[n])
+					remaining.Add(c05Lot(n))
+					boundary = "far_above"
 				}
 				if remaining.Sign() > 0 {
 					req[n] = remaining
@@ -203,12 +308,25 @@ func TestVerifC05Fit(t *testing.T) {
 					why += fmt.Sprintf(" %s: assigned %s + request %s > reserved %s - held back %s;", n, c05QS(used[n]), rq.String(), c05QS(alloc[n]), c05QS(inner[n]))
 				}
 			}
-			if podsCap >= 0 && int64(k-victims)+1 > podsCap {
-				fitsPods = false
-				why += fmt.Sprintf(" pods: %d assigned - %d victims + 1 > %d;", k, victims, podsCap)
+			stayPods := int64(k) - victimPods
+			if stayPods < 0 {
+				stayPods = 0
 			}
-			c.Op("reserved=%s options=%q heldBack=%s assigned=%d victims=%d preemptible=%s used=%s request=%s entry=%s accepted=%v reasons=%v", c05RL(alloc),
-				res.Annotations["scheduling.koordinator.sh/reservation-restricted-options"], c05RL(inner), k, victims, c05RL(preemptible), c05RL(used), c05RL(req), entry, accepted, reasons)
+			if podsCap >= 0 && stayPods+1 > podsCap {
+				fitsPods = false
+				why += fmt.Sprintf(" pods: %d assigned - %d victims + 1 > %d;", k, victimPods, podsCap)
+			}
+			// note only: the pod-level reading when a nominated-only victim is mixed with assigned pods that stay
+			overStaying := false
+			for _, n := range dimList {
+				if rq, has := req[n]; has && !rq.IsZero() {
+					if sum := c05Add(staying[n], rq); sum.Cmp(c05Sub(alloc[n], inner[n])) > 0 {
+						overStaying = true
+					}
+				}
+			}
+			c.Op("reserved=%s options=%q heldBack=%s assigned=%d allocated=%s victimMode=%s assignedVictims=%d preemptible=%s excess=%s staysAfterPreemption=%s request=%s boundary=%s entry=%s accepted=%v reasons=%v", c05RL(alloc),
+				res.Annotations["scheduling.koordinator.sh/reservation-restricted-options"], c05RL(inner), k, c05RL(allocatedSum), mode, victims, c05RL(preemptible), excess, c05RL(used), c05RL(req), boundary, entry, accepted, reasons)
 			c.Count("fit_checks", 1)
 			if accepted {
 				c.Count("fit_accepted", 1)
@@ -217,14 +335,35 @@ func TestVerifC05Fit(t *testing.T) {
 			}
 			if boundary != "far" {
 				c.Count("fit_boundary_"+boundary, 1)
-				if k > 0 {
+				if boundary != "far_above" && (k > 0 || above) {
 					c.NonTrivial()
 				}
 			}
 			if victims > 0 {
 				c.Count("fit_with_victims", 1)
 			}
-			c.Seen(len(dimList), podsCap >= 0, len(inner) > 0, k, victims, entry, boundary, accepted, fits && fitsInner && fitsPods)
+			if above {
+				c.Count("fit_preemptible_above_allocated", 1)
+				c.Count("fit_preemptible_above_allocated_by_"+excess, 1)
+				if k == 0 {
+					c.Count("fit_preemptible_above_allocated_nothing_allocated", 1)
+				}
+				if accepted {
+					c.Count("fit_preemptible_above_allocated_accepted", 1)
+				} else {
+					c.Count("fit_preemptible_above_allocated_rejected", 1)
+				}
+				c.Count("fit_preemptible_above_allocated_boundary_"+boundary, 1)
+				if !accepted && (boundary == "above" || boundary == "far_above") {
+					c.Count("fit_preemptible_above_allocated_rejected_over_reserved", 1)
+				}
+				if accepted && overStaying {
+					// accepted although the assigned pods that are not victims plus the request exceed what is
+					// reserved: the nominated-only victim's amount was credited against pods that stay
+					c.Count("note_accepted_over_pods_that_stay_with_nominated_victim", 1)
+				}
+			}
+			c.Seen(len(dimList), podsCap >= 0, len(inner) > 0, k, victims, mode, excess, entry, boundary, accepted, fits && fitsInner && fitsPods)
 			if accepted && !fits {
 				c.Fail("C05/fit/over-reserved", "%s accepted a pod that does not fit the restricted reservation:%s", entry, why)
 			}
@@ -238,9 +377,22 @@ func TestVerifC05Fit(t *testing.T) {
 				c.Count("converse_misses_fit_rejected", 1)
 			}
 			if c.K < 3 {
-				c.Sample(map[string]any{"reserved": c05RL(alloc), "assigned_sum": c05RL(used), "request": c05RL(req), "victims": victims, "accepted": accepted})
+				c.Sample(map[string]any{"reserved": c05RL(alloc), "allocated": c05RL(allocatedSum), "preemptible": c05RL(preemptible), "stays": c05RL(used), "request": c05RL(req), "victim_mode": mode, "accepted": accepted})
 			}
 		})
 }
 
 func c05QS(q resource.Quantity) string { return q.String() }
+
+// c05Lot: "a lot" of a resource (far more than any generated reservation holds of it, small enough that sums
+// stay exact and below the big node).
+func c05Lot(n corev1.ResourceName) resource.Quantity {
+	switch n {
+	case corev1.ResourceCPU:
+		return resource.MustParse("1000")
+	case c05GPUName:
+		return resource.MustParse("100")
+	default:
+		return resource.MustParse("9007199254740993")
+	}
+}
